@@ -351,6 +351,12 @@ def r4_range_only_partial_ops(w):
         else:
             r.bad(cons, key, 'undischarged partial operation in %s reachable from range formatting: `%s` (operands: %s)'
                   % (b.short, ob.get('path', ob['op']), key.split('|', 3)[-1][:160]), b.loc(ob['term']['span']))
+    # D7 (character boundaries of str slices) for the functions only the range entry reaches (C05.R3 covers the whole-document scope)
+    for ok, cons, key, why, loc in c05.char_boundary_obligations(w, range_only | {entry.id}):
+        if ok:
+            r.ok(cons, 'D7: ' + why)
+        else:
+            r.bad(cons, key, why, loc)
     return r
 
 
